@@ -648,7 +648,7 @@ impl Scenario for ConcurrentSubmit {
         let workers = 1 + cfg.below(3) as usize;
         let capacity = 1 + cfg.below(4) as usize;
         let nthreads = 2 + cfg.biased_zero(2, 1, 3) as usize;
-        let e1cfg = e1::draw_cfg(&cfg, 6000);
+        let e1cfg = e1::draw_cfg(&cfg, 12000);
         cx.ev(format!("executor workers={} capacity={} submitting threads={}", workers, capacity, nthreads));
         let rt = runtime();
         // workers are spawned but do not run until the runtime is driven below: the submit phase
